@@ -63,10 +63,27 @@ def make_rule(label):
     raise KeyError(label)
 
 
+_REF_POOL = {}
+_REF_CALLS = [0]
+
+
 def fresh_like(rule):
-    """a brand-new instance of the same rule with the same options: the stateless reference for
-    'what does this rule answer for this tree' (a rule must not depend on what it was asked before)"""
-    return make_rule(rule_label(rule))
+    """an instance of the same rule with the same options that has no history with the tree at
+    hand: the reference for 'what does this rule answer for this tree'.  Constructing an object is
+    itself an event (a constructor may reset state shared by all instances), so the reference is a
+    brand-new instance only in alternating blocks of 400 requests; in the other blocks nothing is
+    constructed and a pooled instance per label is used, which is replaced whenever a new-instance
+    block begins (its own history stays short and never includes the trees of the quiet block's
+    beginning twice)."""
+    label = rule_label(rule)
+    _REF_CALLS[0] += 1
+    if (_REF_CALLS[0] // 400) % 2 == 0:
+        _REF_POOL.clear()
+        return make_rule(label)
+    ref = _REF_POOL.get(label)
+    if ref is None:
+        ref = _REF_POOL[label] = make_rule(label)
+    return ref
 
 
 def raw_can(rule, node):
@@ -119,6 +136,8 @@ def witness_of(snap, extra):
         "rule": snap["label"], "tag": snap["tag"], "node_index": snap["index"], "before": snap["text"],
         "tree": S.to_json(snap["before"]),
     }
+    if snap.get("dup_ids"):
+        w["ids_preorder"] = snap["dup_ids"]   # only recorded when ids repeat within the tree
     w.update(extra)
     return w
 
@@ -137,6 +156,8 @@ def _pre_apply(self, node):
     order = S.nodes_inorder(root)
     index = next((i for i, n in enumerate(order) if n is node), -1)
     label = rule_label(self)
+    ids = [getattr(n, "id", None) for n in S.nodes_preorder(root)]
+    dup_ids = ids if len(set(ids)) < len(ids) else None
     try:
         ref = fresh_like(self)
         can = bool(raw_can(ref, node))
@@ -146,7 +167,7 @@ def _pre_apply(self, node):
         "rule": self, "label": label, "before": before, "path": path, "index": index, "can": can,
         "tag": type_tag(ref, node) if can else "-", "text": S.text_of(root), "node_kind": S.kind(node),
         "parent_kind": S.kind(node.parent) if node.parent is not None else "root",
-        "node_shadow": S.shadow(node), "hints": list(HINTS),
+        "node_shadow": S.shadow(node), "hints": list(HINTS), "dup_ids": dup_ids,
     }
 
 
@@ -230,6 +251,37 @@ def _structure(rec, snap, arm, key_case, changed):
         return
     if label == "BM":
         rec.arm("context:bm-whole-equation")
+        # the move concerns the node it was asked about: for an addition move, the side that held the
+        # node has one top-level addend equal to the node's subtree FEWER afterwards (the same term
+        # may occur elsewhere too -- clones of one piece on both sides, duplicates left by earlier
+        # rewrites -- and moving one of those instead leaves the requested node where it was)
+        if snap["tag"] == "TYPE_ADDITION" and path and before[0] == "Equal" and after[0] == "Equal" and not _bm_structural(snap):
+            side = 2 if path[0] == "L" else 3
+            term = S.vshadow_of(snap["node_shadow"]) if hasattr(S, "vshadow_of") else snap["node_shadow"]
+
+            def addends(t, sign=1, out=None):
+                out = [] if out is None else out
+                if t is None:
+                    return out
+                if t[0] == "Add":
+                    addends(t[2], sign, out)
+                    addends(t[3], sign, out)
+                elif t[0] == "Subtract":
+                    addends(t[2], sign, out)
+                    out.append((-sign, t[3]))
+                else:
+                    out.append((sign, t))
+                return out
+
+            nb = sum(1 for sg, t in addends(before[side]) if sg > 0 and t == snap["node_shadow"])
+            na = sum(1 for sg, t in addends(after[side]) if sg > 0 and t == snap["node_shadow"])
+            rec.arm("context:bm-moved-the-requested-addend:checked")
+            if nb >= 1 and na != nb - 1:
+                rec.violation("C07", f"structure/{arm}/moved-another-node", "a balanced move left the node it was asked about in place",
+                              witness_of(snap, {"after": snap["after_text"],
+                                                "summary": f"BM on node {snap['index']} of '{snap['text']}' -> '{snap['after_text']}': the {'left' if side == 2 else 'right'} side "
+                                                           f"had {nb} top-level addend(s) '{S.text_of(S.build(snap['node_shadow']))}' and still has {na}"}))
+                return
     else:
         anchor_len = len(path) - (2 if label == "AG" else 1)
         b, a = before, after
